@@ -199,7 +199,15 @@ def x_assert(ctx, case):
                 elif how == "assert_that":
                     assert_that(G.mkvalue(raw, E), G.build(expr, E), message, verbose)
                 else:
+                    then = case.get("then")
+                    if then == "match_before":
+                        self.expectThat(1, testtools.matchers.Equals(1))
                     self.expectThat(G.mkvalue(raw, E), m, message, verbose)
+                    # further expectations that hold do not take an earlier failed one back
+                    if then == "match_after":
+                        self.expectThat(1, testtools.matchers.Equals(1))
+                    elif then == "match_in_cleanup":
+                        self.addCleanup(lambda: self.expectThat("x", testtools.matchers.Equals("x")))
                 observed["raised"] = None
             except BaseException as e:  # noqa
                 observed["raised"] = e
@@ -317,4 +325,5 @@ def run(ctx):
                                "where": rng.choice(["test", "test", "setUp", "setUp-then-skip"])
                                if how == "expectThat" else "test",
                                "message": rng.choice(MESSAGES), "verbose": rng.random() < 0.5,
+                               "then": rng.choice([None, None, "match_after", "match_in_cleanup", "match_before"]),
                                "pre": pre, "details": md})
